@@ -264,6 +264,54 @@ def check_map(seed):
     return out
 
 
+AD_MAP_CASES = [
+    # (program text, {query: marginal}, complete?) - heads of one annotated disjunction as MAP queries; an assignment
+    # is feasible when at most one head is true (exactly one when all heads are queried and their probabilities sum to 1)
+    ("0.1::a; 0.1::b; 0.8::c.\nquery(a).\nquery(b).\n", {"a": 0.1, "b": 0.1}, False),
+    ("0.1::a; 0.2::b.\nquery(a).\nquery(b).\n", {"a": 0.1, "b": 0.2}, False),
+    ("0.3::a; 0.7::b.\nquery(a).\nquery(b).\n", {"a": 0.3, "b": 0.7}, True),
+    ("0.6::a; 0.3::b; 0.1::c.\nquery(a).\nquery(b).\nquery(c).\n", {"a": 0.6, "b": 0.3, "c": 0.1}, True),
+]
+
+
+def check_map_ad(i):
+    """The map task on the heads of an annotated disjunction (fixed cases: the generated family queries independent
+    facts only)."""
+    from problog.tasks import map as maptask
+    src, probs, complete = AD_MAP_CASES[i]
+    out = dict(src=src, violations=[], nontrivial=True, skip=False)
+    names = sorted(probs)
+    best = None
+    for bits in itertools.product([0, 1], repeat=len(names)):
+        if sum(bits) > 1 or (complete and sum(bits) != 1):
+            continue
+        v = sum(probs[q] if b else 1 - probs[q] for q, b in zip(names, bits))
+        best = v if best is None else max(best, v)
+    fd, path = tempfile.mkstemp(suffix=".pl")
+    os.write(fd, src.encode())
+    os.close(fd)
+    res = []
+    try:
+        maptask.main([path], result_handler=lambda r, o: res.append(r))
+    except SystemExit:
+        pass
+    finally:
+        os.unlink(path)
+    if not res or not res[0][0]:
+        out["violations"].append(("map:annotated-disjunction:no-result", "map task failed: %s" % (res[0][1] if res else None)))
+        return out
+    choices, score, stats = res[0][1]
+    got = dict((str(k), int(v)) for k, v in choices.items())
+    val = sum(probs[q] if got.get(q) else 1 - probs[q] for q in names)
+    kind = "all-heads-queried" if complete else "some-heads-not-queried"
+    if sum(got.get(q, 0) for q in names) > 1:
+        out["violations"].append(("map:annotated-disjunction:%s:infeasible" % kind, "assignment %s makes two heads true" % got))
+    elif best - val > TOL:
+        out["violations"].append(("map:annotated-disjunction:%s:not-optimal" % kind, "assignment %s has objective %s, the best "
+                                  "feasible one %s" % (got, val, best)))
+    return out
+
+
 def run(pid, tier, seed):
     n = 6000 if tier == "thorough" else 900
     col = Collector("C21:dtproblog-vs-brute-force",
@@ -284,8 +332,10 @@ def run(pid, tier, seed):
     col2 = Collector("C21:map-vs-brute-force",
                      "%d seeded programs (1-4 probabilistic facts, some of them queried, 0-2 derived atoms, optional evidence "
                      "on a derived atom); the map task (exhaustive and local) against arg max of sum_q x_q P(q|e) + "
-                     "(1-x_q)(1-P(q|e)) with P from possible-world enumeration; ties at 0.5 skipped" % m)
+                     "(1-x_q)(1-P(q|e)) with P from possible-world enumeration; ties at 0.5 skipped; plus %d fixed programs that query "
+                     "heads of an annotated disjunction" % (m, len(AD_MAP_CASES)))
     res = pmap("bounded.c21.check_map", [seed * 100019 + i for i in range(m)])
+    res = list(res) + [check_map_ad(i) for i in range(len(AD_MAP_CASES))]
     for r in res:
         if r["skip"]:
             continue
